@@ -22,7 +22,7 @@ META = {
    design="6/C03"),
  "C04": dict(
    technique="Hypothesis generation of (domain, problem, plan) histories against a step-by-step reference execution; exported text re-read with an independent reader",
-   text="TrajectoryExporter.parse_plan / export on generated plans with applicable and inapplicable steps interleaved (both settings of allow_invalid_actions): one triplet per line in order, first pre-state = initial state, chaining, reference successor on applicable steps, unchanged state on refused steps, exported text equals the triplets, direct apply of an inapplicable step raises.",
+   text="TrajectoryExporter.parse_plan / export on generated plans with applicable and inapplicable steps interleaved (both settings of allow_invalid_actions): entered through parse_plan on a list and through a plan file; one triplet per line in order, first pre-state = initial state, chaining, reference successor on applicable steps, unchanged state on refused steps, exported text equals the triplets, direct apply of an inapplicable step raises.",
    note="Once a step has no defined reference outcome only chaining is checked for the rest of that plan.",
    design="6/C04"),
  "C05": dict(
@@ -43,7 +43,7 @@ META = {
  "C10": dict(
    technique="Hypothesis generation of trajectories; round trip exporter -> file -> TrajectoryParser compared by the library's == and by independently read text",
    text="Generated (domain, problem, plan) -> triplets -> exported file -> Observation with and without the problem's object table: one component per action, same calls, same states (== both ways and text read-back), chained; the shipped single-agent trajectory files are parsed and compared with an independent reading of the same text.",
-   note="Deduced-objects mode only when every object occurs in the first state (documented precondition).",
+   note="Deduced-objects mode only when every object occurs in the first state (documented precondition). A second stream (joint) does the same for multi-agent trajectories (executing_agents, nop padding).",
    design="6/C10"),
  "C12": dict(
    technique="bounded-exhaustive + Hypothesis generation against exact rational arithmetic on the float inputs; one interpreter per EPSILON / NUMERIC_PRECISION configuration",
@@ -70,7 +70,7 @@ META = {
  "C07": dict(
    technique="history (operation-sequence) generation with per-step invariants in the style of a rule-based state machine; canonical digests of every live object after every call; deterministic two-thread line-level scheduler for interleavings",
    text="Generated histories of up to 30/60 API calls (parse, ground, applicability, apply with every flag combination, re-apply pooled operators to earlier and later states, print, export, trajectory export, combine agent domains, fresh Domain()) over pools of domains, states and operators; after every call the digest (read-back through public attributes + exported/serialized text) of every pooled domain and state and of the module-level type table is unchanged and repeated queries return the recorded answers.  A second stream runs two operations (apply / applicability / export / print) on one shared domain under a deterministic scheduler whose switch points are part of the case: each must return what it returns alone and the domain digest must not change.",
-   note="Module-level library state is reset at the top of every case. Probes whose effects conflict are only checked for purity, not for repeatability.",
+   note="Module-level library state is reset at the top of every case. Probes whose effects conflict are only checked for purity, not for repeatability. Two-thread schedules: drawn switch points plus six stratified single-preemption points per pair; outcomes of operators with an object table are also compared with the reference interpreter.",
    design="6/C07"),
  "C08": dict(
    technique="Hypothesis generation + all shipped domain files; round trip through DomainExporter and DomainParser compared via read-back and the reference interpreter; permuted set orders",
@@ -80,12 +80,12 @@ META = {
  "C15": dict(
    technique="Hypothesis generation of valid sequential multi-agent plans (reference random walks); validity predicates over the returned joint plan evaluated by the reference interpreter",
    text="PlanConverter.convert_plan on generated STRIPS / numeric multi-agent domains with 2-4 agents: conservation of actions, per-agent order, slot discipline, applicability of every member in the step's pre-state, semantic non-interference of a step's members (all orders executable and confluent), equal final state; both settings of the concurrency constraint, both plan-file layouts.",
-   note="Known finding K10 (preconditions and numeric reads are invisible to the converter's interference test) judged against a model of the criterion the converter does apply.",
+   note="Known finding K10 (preconditions and numeric reads are invisible to the converter's interference test) judged against a model of the criterion the converter does apply (also as an executable model of when the converter must raise). The shipped plans under tests/ are converted too.",
    design="6/C15"),
  "C16": dict(
    technique="Hypothesis generation of joint actions; every permutation of the members against the reference interpreter; exporter output re-read independently and through TrajectoryParser",
    text="apply_actions on every permutation of the non-nop members of generated joint actions (1-4 members, nop padding anywhere) returns the reference state when members are applicable and confluent, refuses an inapplicable member unless allowed; MultiAgentTrajectoryExporter gives one chained step per joint action whose text reads back to the same states and parses back with executing_agents.",
-   note="Interfering-but-applicable joint actions are counted and skipped (unspecified by the property).",
+   note="Interfering-but-applicable joint actions are counted and skipped (unspecified by the property). One-agent worlds, zero-parameter actions, all-nop steps and nop entries inside apply_actions are generated.",
    design="6/C16"),
  "C17": dict(
    technique="Hypothesis generation of full domain/problem + overlapping closed per-agent splits; oracle = the union; discovery order imposed by wrapping Path.glob; digests of unrelated domains before/after",
@@ -95,7 +95,7 @@ META = {
  "C19": dict(
    technique="Hypothesis generation of planner logs from a grammar modelled on the shipped Metric-FF output and of ENHSP plans; oracle = the generated plan",
    text="get_solving_status / parse_plan on generated Metric-FF logs (0-150 steps, varied headers, trailers, indentation, number width, LF/CRLF, no-solution markers) return exactly the plan's steps lower-cased in order, or no-solution / timeout with no actions; ENHSP plans are returned and rewritten lower-cased in order.",
-   note="Noise lines never contain a digit followed by ': ' (such a line is syntactically a plan step).",
+   note="Noise lines never contain a digit followed by ': ' (such a line is syntactically a plan step). Runs once with logging disabled and once with every logger at DEBUG (separate interpreters).",
    design="6/C19"),
 
  "C11": dict(
@@ -140,7 +140,7 @@ def main():
                      "kind_free_text": "Hypothesis 6.168 strategies + bounded-exhaustive enumeration (multiprocessing) + atheris targets, against an independent reference PDDL reader/interpreter with exact rational arithmetic"}],
         "checks": checks,
         "not_applicable": na,
-        "notes": "Every check: exit 0 held / exit 1 with VIOLATION lines / exit 2 harness error. KNOWN_FINDINGS.txt lists recorded defects (KNOWN-FINDING lines) and fixed ones.",
+        "notes": "Every check: exit 0 held / exit 1 with VIOLATION lines / exit 2 harness error. KNOWN_FINDINGS.txt lists recorded defects (KNOWN-FINDING lines) and fixed ones. Generated streams run on 16 shards and stop drawing after a wall-clock budget (240 s quick, 7200 s thorough; PV_BUDGET_S) - a budget stop is recorded in the evidence (budget_stop) and is never a violation. Regression cases of repaired defects (findings/<id>/fixed_*.json) and the bounded-exhaustive parts run first in both tiers. selftest/ holds the sensitivity harness (42 mutants, reverts of the fix commits, %d seeded changes under seeded/, %d behaviour-preserving refactorings under benign/)." % (len(os.listdir(os.path.join(ROOT, "seeded"))), len(os.listdir(os.path.join(ROOT, "benign")))),
     }
     with open(os.path.join(ROOT, "MANIFEST.json"), "w") as fh:
         json.dump(man, fh, indent=1)
